@@ -96,3 +96,18 @@ Theorem C10_code_send_request_percall_server_WP : forall cfg T Tp S2 S2S P2 P2S 
   fn_send_request_percall_server_WP T Tp S2 S2S P2 P2S now a1 a2 = ret (obs_sr (send_request cfg (set_timing st_init S2 S2S) tp_req Tp now [(a1, Frame [127; 62; 120]); (a2, Frame [126; 0])])).
 Proof. exact tie_send_request_percall_server_WP. Qed.
 Print Assumptions C10_code_send_request_percall_server_WP.
+
+(* ---- the code is the model: what change_session leaves in the client's session timing (tools/symtrans.py, Gen/Fn_Timing.v) ---- *)
+From UDS Require Import Gen.Fn_Timing Proofs.Tie_timing.
+Theorem C10_code_timing_adopted_on_success_only : forall cfg sn d r, std cfg = 2020 -> use_srv cfg = true -> d <> [] -> p_data r = d ->
+  fn_change_session_timing sn d = ret (timing_after cfg sn r).
+Proof. exact tie_change_session_timing. Qed.
+Print Assumptions C10_code_timing_adopted_on_success_only.
+Theorem C10_code_timing_2006 : forall cfg sn d r, std cfg = 2006 -> d <> [] -> p_data r = d ->
+  fn_change_session_timing_2006 sn d = ret (timing_after cfg sn r).
+Proof. exact tie_change_session_timing_2006. Qed.
+Print Assumptions C10_code_timing_2006.
+Theorem C10_code_timing_not_used : forall cfg sn d r, std cfg = 2020 -> use_srv cfg = false -> d <> [] -> p_data r = d ->
+  fn_change_session_timing_unused sn d = ret (timing_after cfg sn r).
+Proof. exact tie_change_session_timing_unused. Qed.
+Print Assumptions C10_code_timing_not_used.
